@@ -913,12 +913,17 @@ fn c14_raw_form_equals_serialised() {
     same!("GICC", madt::Gicc::new(madt::EnabledStatus::Enabled).mpidr(0x8000_0001).overflow_interrupt(7));
     same!("GICD", madt::Gicd::new(1, 0x0800_0000, madt::GicVersion::GICv3));
     same!("GIC MSI", madt::GicMsi::new());
+    same!("GIC MSI (all fields distinct)", madt::GicMsi::new().gic_msi_frame_id(0x0102_0304).base_addr(0x1112_1314_1516_1718).spi_count_and_base(0x2122, 0x3132));
     same!("GICR", madt::Gicr::new(0x080a_0000, 0x00f6_0000));
     same!("GIC ITS", madt::GicIts::new(2, 0x0808_0000));
     same!("RINTC", madt::RINTC::new(madt::HartStatus::OnlineCapable, u64::MAX - 1, 0x0102_0304, 0xfffe_fdfc, 0x2800_0000, 0x1000));
     same!("IMSIC", madt::IMSIC::new(255, 63, 1, 2, 3, 24));
     same!("APLIC", madt::APLIC::new(1, *b"RSCV0002", 4, 0x60, 0xd00_0000, 0x8000, 96));
     same!("PLIC", madt::PLIC::new(1, *b"RSCV0001", 96, 7, 0x60_0000, 0xc00_0000, 0));
+    {
+        let g = ser(&madt::GicMsi::new().gic_msi_frame_id(0x0102_0304).base_addr(0x1112_1314_1516_1718).spi_count_and_base(0x2122, 0x3132));
+        assert_eq!(g, vec![13, 24, 0, 0, 4, 3, 2, 1, 0x18, 0x17, 0x16, 0x15, 0x14, 0x13, 0x12, 0x11, 1, 0, 0, 0, 0x22, 0x21, 0x32, 0x31], "GIC MSI frame layout (ACPI 6.5 table 5.41)");
+    }
     same!("SRAT RINTC affinity", srat::RintcAffinity::new(*b"\x01\x02\x03\x04", 0x0a0b_0c0d));
 }
 struct ByteOnly(Vec<u8>);
